@@ -10,6 +10,8 @@ R11.3  primitives validate first: the same typestate over each primitive's const
 
 from __future__ import annotations
 
+import ast
+
 from ..absint import Event
 from ..actions import ActionAnalysis, describe_mut, raise_key, strip, trail_text
 from ..model import Program
@@ -70,7 +72,7 @@ def typestate(R: Report, rule: str, f, engine, results, subject: str) -> None:
                     else:
                         R.ok(rule, f, e.where(), c + " before any mutation", via="typestate")
                 elif e.kind == "query" and e.dirty:
-                    c = f"lookup {e.name}({strip(e.args['node'])[:60]}) in {e.ctx[-1] if e.ctx else 'constructor body'}"
+                    c = f"lookup {e.name}({canon_item(strip(e.args['node']))[:60]}) in {e.ctx[-1] if e.ctx else 'constructor body'}"
                     if not e.args["known"]:
                         R.fail(rule, f, e.where(), c + " on an id not known to be a node, after mutation",
                                detail="graph lookup raises for an unknown id (modelled implicit raiser)")
@@ -80,6 +82,56 @@ def typestate(R: Report, rule: str, f, engine, results, subject: str) -> None:
                     ax = e.name.split(":")[0]
                     R.ok(rule, f, e.where(), f"branch `{strip(e.args['test'])[:80]}` infeasible", detail=e.name[:200], via=f"axiom:{ax}")
     R.count("raise_exits_before_mutation", n_raise_clean)
+    loop_induction(R, rule, f, results)
+
+
+def canon_item(term: str) -> str:
+    """`$items[0][1]`, `$items[1][1]` -> `$items[i][1]`: which element of a caller-supplied list is meant does not matter"""
+    import re
+
+    return re.sub(r"(\$?\b\w+)\[\d+\](?=\[)", r"\1[i]", term)
+
+
+def loop_induction(R: Report, rule: str, f, results) -> None:
+    """Inductive step for loops over a caller-supplied list, so that the verdict does not depend on how often the
+    loop is unrolled: if one iteration of the body can change the tracks, and the body's FIRST look-up of the current
+    item's id happens inside the body (nothing validated the items before the loop), then in the next iteration that
+    look-up runs after a sub-edit was applied.  Facts of iteration k say nothing about item k+1, so no guard of the
+    earlier iteration can discharge it."""
+    import re
+
+    loops = [lp for lp in f.node.body if isinstance(lp, ast.For) and any(isinstance(x, ast.Name) and x.id in f.params for x in ast.walk(lp.iter))]
+    for lp in loops:
+        lo, hi = lp.body[0].lineno, lp.end_lineno
+
+        def top_line(e):
+            s0 = getattr(e, "_site0", None)
+            return s0[0] if s0 else getattr(e.node, "lineno", 0)
+
+        body_mut = None
+        item_q = {}
+        for pr in results:
+            for seq in pr.sequences(lambda e: e.kind in ("mut", "query")):
+                for e in seq:
+                    if not (lo <= top_line(e) <= hi):
+                        continue
+                    if e.kind == "mut" and body_mut is None:
+                        body_mut = e
+                    if e.kind == "query" and not e.args.get("known") and not e.dirty and re.search(r"\$\w+\[0\]\[", str(e.args.get("node", ""))):
+                        item_q.setdefault((e.name, e.args["node"], e.ctx), e)
+        if body_mut is None:
+            continue
+        # the first unvalidated look-up per item term
+        first = {}
+        for (name, node, ctx), e in item_q.items():
+            k = node
+            if k not in first or (top_line(e), getattr(e.node, "lineno", 0)) < (top_line(first[k]), getattr(first[k].node, "lineno", 0)):
+                first[k] = e
+        for node, e in first.items():
+            c = f"lookup {e.name}({canon_item(strip(node))[:60]}) in {e.ctx[-1] if e.ctx else 'constructor body'}"
+            R.fail(rule, f, e.where(), c + " on an id not known to be a node, after mutation",
+                   detail=f"graph lookup raises for an unknown id (modelled implicit raiser); reached in iteration k+1 of the loop at line {lp.lineno} "
+                          f"after iteration k applied {body_mut.brief()[:80]} (inductive step over the caller-supplied list)")
 
 
 def order_rule(R: Report, f, results) -> None:
